@@ -409,7 +409,7 @@ func classOf(c config) string {
 
 func main() {
 	c := vlib.Start("C17")
-	n := c.N(500, 30000)
+	n := c.N(1500, 400000)
 	scs := canonical()
 	base := c.Rand("scenarios")
 	for i := 0; i < n; i++ {
